@@ -801,9 +801,14 @@ func syncMapHoldsOnly(c *Check, x *ssa.TypeAssert) bool {
 	for _, s := range c.G.CallsTo("(*sync.Map).Store", "(*sync.Map).LoadOrStore", "(*sync.Map).Swap", "(*sync.Map).CompareAndSwap") {
 		k, ok := fieldOf(s.Common().Args[0])
 		if !ok || k != key {
-			// a sync.Map reached some other way: cannot be this field only if it is a field of another key
+			// another map: a different field, a package-level variable or a local one. A map reached
+			// through a pointer of unknown origin could be this field: give up.
 			if !ok {
-				return false
+				switch s.Common().Args[0].(type) {
+				case *ssa.Global, *ssa.Alloc:
+				default:
+					return false
+				}
 			}
 			continue
 		}
